@@ -221,3 +221,51 @@ func vh_C03_subscribe_e2e() {
 	vCover(vAnd(vNot(res.Recovered), called == 1), "e2e-empty-not-populated")
 	vCover(vAnd(res.Recovered, vAnd(len(res.Publications) == 0, kept1 > 0)), "e2e-recovered-at-top")
 }
+
+// ---------------------------------------------------------------------------
+// Populate-and-retry with tags filters: the channel has no history, the
+// cache-empty handler publishes two publications with symbolic tag values and
+// claims Populated, so the verdict is taken by the second recoverCache call.
+// The reply carries the newest publication that passes BOTH the server and the
+// client tags filter, or none. (Filter scaffolding shared with C16.)
+func vh_C03_populated_retry_filtered() {
+	e := vC16Setup(SubscribeOptions{EnableRecovery: true, RecoveryMode: RecoveryModeCache}, "c03_filter_pairs", false)
+	populated := 0
+	e.n.OnCacheEmpty(func(ev CacheEmptyEvent) (CacheEmptyReply, error) {
+		populated++
+		e.publish(true)
+		e.publish(true)
+		return CacheEmptyReply{Populated: true}, nil
+	})
+	e.connect()
+	e.subscribeCmd(&protocol.SubscribeRequest{Recover: true})
+	vSettle()
+	vAssert(populated == 1, "cache-empty handler ran once")
+	var got []*protocol.Publication
+	for _, r := range vReplies(e.tr) {
+		if r != nil && r.Id == 2 && r.Subscribe != nil {
+			got = r.Subscribe.Publications
+		}
+	}
+	vAssert(len(got) <= 1, "at most one publication without delta")
+	// newest visible publication of the populated channel
+	want := -1
+	for k := len(e.pubs) - 1; k >= 0 && want < 0; k-- {
+		if !e.excluded(e.pubs[k]) { // forks on the symbolic tag values
+			want = k
+		}
+	}
+	if want < 0 {
+		vAssert(len(got) == 0, "nothing visible: nothing delivered")
+		vCover(true, "all-filtered")
+		return
+	}
+	vAssert(len(got) == 1, "the newest visible publication is delivered")
+	if len(got) == 1 {
+		p, ok := e.byData(got[0].Data)
+		vAssert(ok && p.data == e.pubs[want].data, "delivered publication is the newest one passing both filters")
+		vAssert(got[0].Offset == uint64(want+1), "delivered publication carries its offset")
+	}
+	vCover(want == 0, "newest-filtered-older-delivered")
+	vCover(want == 1, "newest-delivered")
+}
